@@ -617,12 +617,26 @@ func ifs(fn *ssa.Function) []*ssa.If {
 func stripNot(v ssa.Value) (ssa.Value, bool) {
 	flip := false
 	for {
-		u, ok := v.(*ssa.UnOp)
-		if !ok || u.Op != token.NOT {
-			return v, flip
+		if u, ok := v.(*ssa.UnOp); ok && u.Op == token.NOT {
+			v = u.X
+			flip = !flip
+			continue
 		}
-		v = u.X
-		flip = !flip
+		// comparisons of a boolean with a constant: (x == true) is x, (x == false) is !x, and so on
+		if b, ok := v.(*ssa.BinOp); ok && (b.Op == token.EQL || b.Op == token.NEQ) {
+			x, c := b.X, b.Y
+			if _, isC := x.(*ssa.Const); isC {
+				x, c = c, x
+			}
+			if cc, isC := c.(*ssa.Const); isC && cc.Value != nil && cc.Value.Kind() == constant.Bool {
+				if (b.Op == token.EQL) != constant.BoolVal(cc.Value) {
+					flip = !flip
+				}
+				v = x
+				continue
+			}
+		}
+		return v, flip
 	}
 }
 
